@@ -29,7 +29,14 @@ func init() {
 		Bounds:      map[string]any{"quick": "≤ 3 attempts (single), ≤ 4 hops (cluster)", "thorough": "≤ 4 attempts, ≤ 5 hops"},
 		specs: func(tier string) []specRef {
 			return []specRef{hsx(rootPkg, "VerifC28_single", P{"max_attempts": q(tier, int64(3), 4)}, 3000000, 3000, "retried", "returned"),
-				hsx(rootPkg, "VerifC28_multi", P{"max_attempts": q(tier, int64(3), 4)}, 3000000, 3000, "retried", "dropped", "returned"), redirect(tier)}
+				hsx(rootPkg, "VerifC28_multi", P{"max_attempts": q(tier, int64(3), 4)}, 3000000, 3000, "retried", "dropped", "returned"),
+				clusterRetry(), redirect(tier)}
 		},
 	}
+}
+
+func clusterRetry() specRef {
+	r := hsd(rootPkg, "VerifC28_clusterMulti", nil, 0, 100000, 900, "recovered", "gaveup")
+	r.spec.Overrides = clusterOverrides
+	return r
 }
